@@ -179,7 +179,8 @@ def run(ck):
                 for root, path in b.resolve(pl):
                     if root[0] == "call":
                         cs = b.call_at(root[1])
-                        if cs.name in ("from_residual", "branch", "map_err", "into", "from") and cs.args and depth < 6:
+                        # (error-preserving adaptors: the failing call is the one whose Result they were applied to)
+                        if cs.name in ("from_residual", "branch", "map_err", "into", "from", "map", "and", "or_else", "inspect_err", "inspect") and (cs.name not in ("map", "and", "or_else", "inspect_err", "inspect") or (cs.f and "result::Result" in cs.f["path"])) and cs.args and depth < 6:
                             trace(op_place(cs.args[0]) or {"l": 0, "p": [], "t": 0}, depth + 1)
                         else:
                             causes.add(cs.describe())
